@@ -16,6 +16,8 @@ for line in open(os.path.join(VERIF, "properties.jsonl")):
     plain = [e for e in prev if e["seed"] == pid][-1:]
     rest = [e for e in prev if e["seed"] != pid]
     lst = "; ".join('(%d) "%s"' % (k + 1, e["idea"].replace("`", "")) for k, e in enumerate(plain + rest))
+    others = "; ".join('"%s"' % e["idea"].replace("`", "")[:110] for q, v in sorted(ideas.items()) if q != pid for e in v[-3:])
+    lst += '. Mechanisms that were already used for OTHER properties of the same library (avoid these as well, your mechanism should be new): ' + others
     sid = pid + suffix
     text = TEMPLATE.replace("{SID}", sid).replace("{PID}", pid).replace("{TITLE}", p["title"]).replace("{STATEMENT}", p["statement"]) \
         .replace("{QUANT}", p["quantifier"]["text"]).replace("{IDEAS}", lst)
